@@ -718,7 +718,7 @@ func runWithTimeout(cmd *exec.Cmd, d time.Duration) (string, error) {
 func (r *replayer) confirm(res *entryResult, tc TierCfg) {
 	perID := map[string]int{}
 	confirmedID := map[string]bool{}
-	dir := filepath.Join(r.verif, "replays", r.id)
+	dir := filepath.Join(r.verif, "replays", r.id+evidenceSuffix)
 	os.MkdirAll(dir, 0o755)
 	for _, v := range res.rep.Violations {
 		if confirmedID[v.ID] || perID[v.ID] >= 3 {
